@@ -69,3 +69,23 @@ Definition run_ifaddrs (l : list ifa) : jv :=
 
 (* a sequence of entry-point calls made in one process *)
 Definition run_seq (fixed : bool) (calls : list (entry * list pyval)) : jv := JL (map jv_cres (c_entry_seq fixed calls)).
+
+(* the interleaving model of getmntent()'s static storage on [n] threads, thread i reading a file of i+2 entries that
+   name their thread: is every thread's view consistent under the given schedule, with and without the GIL? *)
+Definition thr_file (i : nat) : list ment :=
+  map (fun k => {| m_dev := [Z.of_nat i; Z.of_nat k]; m_dir := [47]; m_type := [Z.of_nat i]; m_opts := [Z.of_nat k] |}) (seq 0 (i + 2)).
+Definition ment_eqb (a b : ment) : bool :=
+  beqb (m_dev a) (m_dev b) && beqb (m_dir a) (m_dir b) && beqb (m_type a) (m_type b) && beqb (m_opts a) (m_opts b).
+Fixpoint ments_eqb (a b : list ment) : bool :=
+  match a, b with [], [] => true | x :: a', y :: b' => ment_eqb x y && ments_eqb a' b' | _, _ => false end.
+(* decidable form of [thr_consistent] (a thread that has read but not yet decoded an entry is skipped over that entry) *)
+Definition thr_consistent_b (files : list (list ment)) (s : tsys) : bool :=
+  (length files =? length (ts_threads s))%nat &&
+  forallb (fun p => let f := fst p in let t := snd p in
+                    ments_eqb (th_out t ++ (if th_pending t then firstn 1 (skipn (length (th_out t)) f) else []) ++ th_rest t) f)
+          (combine files (ts_threads s)).
+(* GIL variant under the given schedule; no-GIL variant under a schedule that starts with read0, read1, decode0, decode1 *)
+Definition run_threads (n : Z) (sched : list nat) : jv :=
+  let files := map thr_file (seq 0 (Z.to_nat n)) in
+  JL [ jbool (thr_consistent_b files (run_sched step_gil sched (th_init files)));
+       jbool (thr_consistent_b files (run_sched step_nogil ([0; 1; 0; 1]%nat ++ sched) (th_init files))) ].
